@@ -548,8 +548,16 @@ Qed.
 Lemma tok_eqb_eq a b : tok_eqb a b = true <-> a = b.
 Proof. unfold tok_eqb. destruct a, b; cbn; split; intro H; try reflexivity; try discriminate. Qed.
 
+(** the token [scan] builds from a round of the switch *)
+Definition mk_token (st : state) (k : tok) (sv : bytes) (st' : state) : token :=
+  let len := s_off st' - s_off st in
+  let lit := firstn (Z.to_nat len) (s_rest st) in
+  {| t_kind := k; t_off := s_off st; t_len := len; t_line := s_line st; t_col := s_col st; t_lit := lit;
+     t_value := if tok_eqb k STRING_VALUE then sv else lit |}.
+
 (** the token returned by a round that started in [st0] and ended in [st'] *)
 Record tok_at (st0 st' : state) (t : token) : Prop := {
+  ta_switch : exists k sv, scan_switch st0 = Some (k, sv, st') /\ t = mk_token st0 k sv st';
   ta_steps : steps 1 st0 st';
   ta_off : t_off t = s_off st0;
   ta_len : t_len t = s_off st' - s_off st0;
@@ -591,8 +599,9 @@ Proof.
     + right. exists t, st0, st'. split; [exact H2|]. split; [apply TR; exact K2|exact T2].
   - right. eexists _, st, st1. split; [reflexivity|]. split; [apply skipped_refl|].
     apply orb_false_iff in Ek. destruct Ek as [Ek _].
-    constructor; cbn [t_off t_len t_line t_col t_lit t_kind]; try reflexivity; [exact S1|].
-    intro Hk. subst k. discriminate.
+    constructor; cbn [t_off t_len t_line t_col t_lit t_kind]; try reflexivity; [|exact S1|].
+    + exists k, sv. split; [exact H1|reflexivity].
+    + intro Hk. subst k. discriminate.
 Qed.
 
 (** ** [scan_all] over a fixed input *)
@@ -644,7 +653,7 @@ Proof.
     unfold is_done in D1. rewrite Hr in D1.
     assert (L : length (skipn (Z.to_nat (s_off st')) bs) = 0%nat) by (destruct (skipn _ bs); [reflexivity|discriminate]).
     rewrite skipn_length in L. lia.
-  - destruct T1 as [TS TO TL TLi TC TLit TK].
+  - destruct T1 as [_ TS TO TL TLi TC TLit TK].
     pose proof (at_bs_steps _ _ _ _ Hat K1) as Hat0.
     pose proof (at_bs_steps _ _ _ _ Hat0 TS) as Hat'.
     pose proof (steps_length _ _ _ K1) as L0. pose proof (steps_length _ _ _ TS) as L1.
@@ -719,4 +728,31 @@ Proof.
     constructor.
     + eapply HQ; eassumption.
     + eapply IH; [|exact E]. eapply HP; [apply (ta_steps _ _ _ T1)|exact P0].
+Qed.
+
+(** nothing consumed and nothing reported: nothing happened *)
+Lemma nsteps_same k st st' : nsteps k st st' -> s_off st' = s_off st ->
+  length (s_errs st') = length (s_errs st) -> st' = st.
+Proof.
+  induction 1 as [st|k st st' Hd H IH|k st st' H IH]; intros Ho He; [reflexivity| |].
+  - exfalso. destruct (nsteps_extent _ _ _ H) as (j & _ & _ & _ & Hoff & _).
+    pose proof (steps_off _ _ _ (steps_consume st Hd)). lia.
+  - exfalso. destruct (nsteps_extent _ _ _ H) as (j & _ & _ & _ & _ & l & Hl).
+    rewrite Hl, app_length, errorf_errs_length in He. lia.
+Qed.
+
+Lemma steps_same m st st' : steps m st st' -> s_off st' = s_off st ->
+  length (s_errs st') = length (s_errs st) -> st' = st.
+Proof. intros (k & _ & H). eapply nsteps_same; eassumption. Qed.
+
+(** errors are never retracted *)
+Lemma scan_all_errs_mono m : forall fuel st ts es, scan_all fuel m st = Done ts es ->
+  (length (s_errs st) <= length es)%nat.
+Proof.
+  induction fuel as [|f IH]; intros st ts es H; [discriminate|]. cbn [scan_all] in H.
+  destruct (scan_ok m (S (fuel_of st)) st) as [(st' & H1 & [K1 K2] & D1)|(t & st0 & st' & H1 & [K1 K2] & T1)];
+    [unfold fuel_of; lia| |]; rewrite H1 in H.
+  - inversion H; subst. eapply steps_errs_length; eassumption.
+  - destruct (scan_all f m st') as [|ts' es'] eqn:E; [discriminate|]. inversion H; subst.
+    apply IH in E. pose proof (steps_errs_length _ _ _ K1). pose proof (steps_errs_length _ _ _ (ta_steps _ _ _ T1)). lia.
 Qed.
